@@ -183,6 +183,9 @@ def run_vh(pid, outdir, seed, tier, replay=None, scale=None, timeout=3000):
 
 # --------------------------------------------------------------------------- stage 3
 
+HYP_COUNTS = []
+
+
 def eval_shard(path):
     try:
         rc, out = run(["bash", "-c", "ulimit -s unlimited 2>/dev/null || ulimit -s 1000000; exec coqc -Q %s TT -w none %s" % (COQ, path)],
@@ -192,6 +195,9 @@ def eval_shard(path):
     if rc != 0:
         return path, None, out[-2000:]
     flat = re.sub(r"\s+", "", out)
+    hm = re.search(r'H="([01]*)"', flat)
+    if hm:
+        HYP_COUNTS.append((hm.group(1).count("1"), len(hm.group(1))))
     m = re.search(r'M="([AVSKO]*)"', flat)
     if not m:
         m2 = re.search(r'M=""', flat)
@@ -286,6 +292,8 @@ def write_evidence(pid, tier, seed, ev, wall, violations):
         "exhaustive": bool(ev.get("exhaustive", False)),
     }
     cov.update(ev.get("extra_cov", {}))
+    if HYP_COUNTS:
+        cov["cases_meeting_main_theorem_hypothesis"] = "%d of %d" % (sum(a for a, _ in HYP_COUNTS), sum(b for _, b in HYP_COUNTS))
     doc = {
         "property_id": pid, "tier": tier, "seed": seed, "level": level,
         "coverage": cov,
@@ -401,6 +409,8 @@ def main():
             all_cases += cases
             for k, v in res["stats"].get("histogram", {}).items():
                 hist[k] = hist.get(k, 0) + v
+            if HYP_COUNTS:
+                ev.setdefault("extra_cov", {})
             if sub == "run":
                 ev["evaluations"] = res["stats"]["evaluations"]
                 ev["distinct_nontrivial"] = res["stats"]["distinct_nontrivial"]
